@@ -98,7 +98,7 @@ theorem eval_direct (X : Ctx p q) {t : Fun.Term} (hd : evalDirect t = true) (hg 
     {k : Fun.Stack} {c : Core.Term} {s : Core.Stmt} {ρ0 ρ : CEnv} {out : Out} {n : Nat}
     (hc : Compiled q n t c s) (he : EnvRel (GP p) q n (fv t) env ρ0) (hr : CRel (GP p) q n k c ρ0)
     (hbd : BoundOn (tfvStmt s []) ρ0) (hag : AgreeOn (tfvStmt s []) ρ0 ρ) :
-    Chunk p q (R p q) true (.eval t env k) ⟨s, ρ, out, n⟩ := by
+    Chunk p q (R p q) true true μ (.eval t env k) ⟨s, ρ, out, n⟩ := by
   obtain ⟨st, st', hcwc, hst, htn, hcn⟩ := hc
   obtain ⟨hpd, P, τ, cty, hcP, rfl, hnc⟩ := cwc_direct X.cod t hd hg c st s st' hcwc
   have hagP : AgreeOn (tfvTerm P []) ρ0 ρ := hag.mono fun y hy => mem_tfv_cut.2 (.inl hy)
@@ -112,14 +112,14 @@ theorem eval_direct (X : Ctx p q) {t : Fun.Term} (hd : evalDirect t = true) (hg 
       cases P with
       | var pc z ty =>
         obtain ⟨_, _, V, hl, hvr⟩ := hv.var pc z ty rfl
-        exact Chunk.prefix fj (.refl _) rfl (fun _ => hj)
+        exact Chunk.prefix fj (.refl _) rfl (fun _ => hj) (fun h => .inr h)
           (pass_chunk X hnc (A := .var pc z ty) rfl (by simpa [Core.prdVal] using hl) hvr hr hagc).weaken
       | _ => simp [Core.Term.isVar] at hP
     | false =>
       obtain ⟨i, ρ', n', P', V, hcs, hn', hext, hfoc, hval, hvr⟩ :=
         (hv.nonvar hP).1 c cty out hr.inert
       obtain ⟨ρ0', hext0, hag'⟩ := hext.agree (ρ0 := ρ0)
-      exact Chunk.prefix fj hcs rfl (fun _ => hj)
+      exact Chunk.prefix fj hcs rfl (fun _ => hj) (fun h => .inr h)
         (pass_chunk X hnc hfoc hval (hvr.mono hn')
           ((hr.mono hn').sigExt hext0 (hcn.sig_lt (Nat.le_refl n))) (hag' _ hagc)).weaken
   · exact .inl ⟨j, s1, .stuck w, fj, by rw [h1]; rfl, fun hf => absurd hf (bad_not_finished h2)⟩
